@@ -18,7 +18,8 @@ RULE = ("constructor: URL strings whose user, password, path segments, query par
         "alphabet (all strings up to length 3 in one component at a time) plus structured and soup URLs; the supplied component text (RFC "
         "decomposition of the cleaned input) and the canonical component must stand for the same bytes with the same delimiter status, "
         "segment and pair boundaries included (c02_pred kind 0); builders and modifiers: decoded texts through build/with_user/with_password/"
-        "with_path/with_name/'/'/joinpath/with_fragment/with_query(str and mapping) (kind 1); distinct = distinct request")
+        "with_path/with_name/'/'/joinpath/with_fragment/with_query(str and mapping), update_query(escaped str, mapping) and extend_query(mapping) on a receiver "
+        "without a query (kind 1); distinct = distinct request")
 
 TEXTS = gens.TEXTS + ["a%2Fb", "%2F", "%25", "100%", "a+b c", "k&v=w;x", "é/ü", "\U0001f600", "#?[]@:!$&'()*+,;=", "a\\b", "\x7f", "x%zzy", "%C3%A9",
                       "\U0010ffff", "a=b=c", "a&b", "+", "%2B", ";", "a;b", "a b+c"] + gens.alias_escapes()[::3]
@@ -73,6 +74,15 @@ def run(ctx):
         for t2 in TEXTS[:: (9 if ctx.quick else 2)]:
             cases.append((6, t, t2, base + [["op", "with_query", ["map", [t, t2]]]]))
             cases.append((6, t, t2, [["push", build(query=["seq", [t, t2]])]]))
+    # update_query(str): the supplied string is percent-DEcoded (parse_qsl) before it is re-encoded, whether or not the
+    # receiver already has a query; supplied fully escaped so that every delimiter in it is data
+    pct = lambda x: "".join("%%%02X" % b for b in x.encode("utf-8", "surrogatepass"))
+    noq = [["push", ["url", "http://h/p"]]]
+    for t in ("k", "a b", "\u00e9", "a&b", "x=y", "p+q", "50%", "a%26b", "s;t"):
+        for t2 in ("v", "a&b", "a%26b", "1+1=2", "\u00e9 \u00fc", "%", ";"):
+            cases.append((6, t, t2, noq + [["op", "update_query", pct(t) + "=" + pct(t2)]]))
+            cases.append((6, t, t2, noq + [["op", "update_query", ["map", [t, t2]]]]))
+            cases.append((6, t, t2, noq + [["op", "extend_query", ["map", [t, t2]]]]))
     code = {"user": 0, "password": 1, "path": 2, "name": 3, "fragment": 4, "query": 5}
     for comp, t, prog in suites.reapply_cases(base, TEXTS + suites.SELF_TEXTS):
         if comp != "query" or "#" not in t:
